@@ -115,6 +115,8 @@ def _val_of(e):
         return Fraction(e.numerator_as_long(), e.denominator_as_long())
     if z3.is_bv_value(e):
         return e.as_long()
+    if z3.is_string_value(e):
+        return e.as_string()
     return None
 
 
